@@ -260,4 +260,9 @@ VARIANTS = [
     ('closed-accepts', 'cylc/flow/subprocpool.py',
      '        if (self.closed or self._is_stopping() and',
      '        if (self._is_stopping() and', 'C42.stopping'),
+    ('terminate-process-before-drain', 'cylc/flow/subprocpool.py',
+     '''        self.close()
+        # Drain queue''', '''        self.close()
+        self.process()
+        # Drain queue''', 'C42.terminate-order'),
 ]
